@@ -16,6 +16,7 @@ from vf.core import CorrResult, Disagreement, Failure
 
 TOL = 1e-7
 COND_MAX = 1e6          # cases whose prediction MSE matrices are worse conditioned are regenerated
+VAR_MIN = 1e-8           # ... or that observe a (numerically) deterministic quantity
 
 # ------------------------------------------------------------------------------------------------
 # generator
@@ -314,7 +315,7 @@ def log_name(case, nm):
 def cond_ok(impl) -> bool:
     for F in impl["out"]["predict_mse_obs"][0]:
         F = np.asarray(F)
-        if F.size and (not np.all(np.isfinite(F)) or np.linalg.cond(F) > COND_MAX):
+        if F.size and (not np.all(np.isfinite(F)) or np.linalg.cond(F) > COND_MAX or np.min(np.diag(F)) < VAR_MIN):
             return False
     return True
 
@@ -1145,8 +1146,11 @@ def batch_reference(case: dict, sol: dict, pin: list[dict]) -> dict:
         e = yo - (Lo @ mz + co)
         Si_e = np.linalg.solve(S, e)
         sign, logdet = np.linalg.slogdet(S)
+        cnd_no = float(np.linalg.cond(S))
+        if np.min(np.diag(S)) < VAR_MIN:
+            cnd_no = float("inf")                      # an observed quantity with (numerically) zero variance
         return {"N": N, "logdet": float(logdet), "q": float(e @ Si_e), "S": S, "e": e, "Lo": Lo, "Si_e": Si_e,
-                "cond": float(np.linalg.cond(S))}
+                "cond": cnd_no}
 
     def moments(cnd, Lq, cq):
         mu = Lq @ mz + cq
@@ -1285,7 +1289,9 @@ def falsify_c03_case(case: dict, tol=1e-7) -> list[Failure]:
                 if ln not in box.keys():
                     continue
                 g = float(_arr(box[ln], span)[t])
-                if not close(g, w, 10 * tol):
+                # standard deviations are compared as variances (a std of 0 is only accurate to sqrt(eps))
+                same = close(g * g, w * w, 10 * tol) if what == "std" else close(g, w, 10 * tol)
+                if not same:
                     fails.append(Failure(f"{kind}_{what}" + (":shock" if nm in sol["u_names"] + sol["w_names"] else ""),
                                          f"{kind}_{what}[{ln}] is not the conditional "
                                          f"{'mean' if what == 'med' else 'standard deviation'} given the data "
